@@ -243,7 +243,7 @@ class MultiStream(Stream):
             self._init_indexer(flow, phases, chemicals, phase_flows)
             flow = getattr(self, 'i' + name)
             material_data = self._imol.data / factor
-            if total_flow: material_data *= total_flow / material_data.sum()
+            if total_flow: material_data *= total_flow / (factor * material_data.sum()) # Total flow is given in `units`
             flow.data[:] = material_data
         else:
             self._init_indexer(flow, phases, chemicals, phase_flows)
